@@ -103,6 +103,20 @@ CLAIMED = {
         "bodies excluded (CLI cannot see them).",
         "exhaustive small-alphabet sequences + Hypothesis; reference-model + differential (myst-anchors CLI) + round-trip (link resolution) oracles",
     ),
+    "C13": (
+        "Every config field x a type table of values written from the documented types (385 rows: valid spellings, wrong "
+        "scalar / container / nested types; VALID / INVALID / UNSPECIFIED), Hypothesis-composed nested values for the "
+        "structured fields, through constructor, copy(), merge_file_level, front matter of a real parse, docutils "
+        "settings of a real parse, docutils option strings through docutils' OptionParser, and conf.py values of real "
+        "Sphinx applications; oracles: accepted <=> VALID and all entry points agree; all spellings of a value give one "
+        "canonically typed configuration; front-matter setting == global setting for every local field (fixed "
+        "feature-rich document x value table x 3 global configurations, and Hypothesis documents), with dict merge; "
+        "invalid front-matter value => exactly one topmatter warning and unchanged rendering; global configuration "
+        "object unchanged by parses in a live Sphinx app and by merge_file_level; bounded search.",
+        "Type table written from the documentation, silent cases UNSPECIFIED; commonmark_only in front matter is an "
+        "open finding; gfm_only / linkify effects need linkify-it-py.",
+        "exhaustive type-table enumeration + Hypothesis; reference-model (type table) + differential (entry points / spellings) + metamorphic (front matter vs global) oracles",
+    ),
     "C16": (
         "Hypothesis markup soup (totality, termination, tree consistency), grammar-generated well-formed HTML and "
         "exhaustive forests of <=4/5 nodes (exact round trip, copy/strip isolation, find = brute-force filter), "
